@@ -3,13 +3,31 @@ import rx
 from rx.subject import Subject
 
 
-def drive_plain(ops, chunks, complete=True, error=None):
+def drive_plain(ops, chunks, complete=True, error=None, twin=None, twin_mode='before'):
     """Push `chunks` one by one through the operator list `ops` (plain observables).
     Returns {'steps': [[outputs emitted while chunk i was pushed]...], 'fin': [outputs at completion],
-             'end': 'completed' | 'error:<Type>' | 'open', 'sub': [outputs at subscription]}"""
+             'end': 'completed' | 'error:<Type>' | 'open', 'sub': [outputs at subscription]}
+    With `twin` (a list of chunks), the SAME operator objects are applied to a second source whose subscription is
+    live at the same time (subscribed before the judged one, or after its first chunk with twin_mode='mid'); the
+    twin's chunks are pushed alternately with the judged ones and its outputs are discarded."""
     src = Subject()
     cur = []
     state = {'end': 'open'}
+    src2 = Subject() if twin is not None else None
+    tw = list(twin or [])
+
+    def sub_twin():
+        src2.pipe(*ops).subscribe(on_next=lambda x: None, on_error=lambda e: None, on_completed=lambda: None)
+
+    def push_twin():
+        if tw:
+            try:
+                src2.on_next(tw.pop(0))
+            except Exception:
+                pass
+    if twin is not None and twin_mode == 'before':
+        sub_twin()
+        push_twin()
 
     def on_next(x):
         cur.append(x)
@@ -24,7 +42,12 @@ def drive_plain(ops, chunks, complete=True, error=None):
     sub = list(cur)
     del cur[:]
     steps = []
-    for c in chunks:
+    for k, c in enumerate(chunks):
+        if twin is not None:
+            if k == 1 and twin_mode == 'mid':
+                sub_twin()
+            if twin_mode == 'before' or k >= 1:
+                push_twin()
         try:
             src.on_next(c)
         except Exception as e:      # exception escaping through the source's on_next
@@ -41,6 +64,13 @@ def drive_plain(ops, chunks, complete=True, error=None):
         else:
             src.on_completed()
         fin = list(cur)
+    if twin is not None and (twin_mode == 'before' or len(chunks) > 1):
+        while tw:
+            push_twin()
+        try:
+            src2.on_completed()
+        except Exception:
+            pass
     return {'sub': sub, 'steps': steps, 'fin': fin, 'end': state['end']}
 
 
